@@ -42,6 +42,7 @@ func (d *ManyToOne) Set(data GenericDataType) {
 	for {
 		writeIndex := atomic.AddUint64(&d.writeIndex, 1)
 		idx := writeIndex % uint64(len(d.buffer))
+	retry:
 		old := atomic.LoadPointer(&d.buffer[idx])
 
 		if old != nil &&
@@ -58,7 +59,10 @@ func (d *ManyToOne) Set(data GenericDataType) {
 
 		if !atomic.CompareAndSwapPointer(&d.buffer[idx], old, unsafe.Pointer(newBucket)) {
 			log.Println("Diode set collision: consider using a larger diode")
-			continue
+			// The slot changed under us (typically the reader just emptied
+			// it). Retry the position we own instead of abandoning it: an
+			// abandoned position is a hole the reader never gets past.
+			goto retry
 		}
 
 		return
